@@ -18,7 +18,7 @@
 (*                  defines for the logged call   (=> conformance only)    *)
 (* The verdict predicates never consult Apply.                             *)
 (***************************************************************************)
-EXTENDS PropsQ, Json, IOUtils, TLCExt
+EXTENDS PropsF, Json, IOUtils, TLCExt
 
 CONSTANTS Strict
 
@@ -90,6 +90,8 @@ CheckRecord(k) ==
          /\ Report("FAIL", k, ActionClauses(pre, c, r.out, post, FullPre(r), FullPost(r)))
          /\ (IF c.op \in {"hq", "hcheck"} THEN Report("FAIL", k, QueryClauses(pre, c, RetOf(r), InfoOf(r))) ELSE TRUE)
          /\ (IF c.op \in {"uniquify", "flatten"} THEN Report("FAIL", k, TransformClauses(pre, c, r.out, post)) ELSE TRUE)
+         /\ (IF c.op = "edif_read" THEN Report("FAIL", k, EdifReadClauses(pre, c, r.out, post, RetOf(r))) ELSE TRUE)
+         /\ (IF c.op = "edif_rt" THEN Report("FAIL", k, EdifRtClauses(pre, c, r.out, post, RetOf(r), r)) ELSE TRUE)
          /\ (IF c.op = "compare" THEN Report("FAIL", k, CompareClauses(pre, c, r)) ELSE TRUE)
          /\ (IF c.op = "q" THEN Report("FAIL", k, QueryFilterClauses(c, r)) ELSE TRUE)
          /\ (IF c.op = "clone" THEN Report("FAIL", k, CloneClauses(pre, c, r.out, post, RetOf(r), FullPost(r))) ELSE TRUE)
@@ -98,7 +100,7 @@ CheckRecord(k) ==
                                        <<"C19_BeforeEffect", C19_BeforeEffect(r.ann)>>,
                                        <<"C19_Transparent", IF "agree" \in DOMAIN r THEN r.agree ELSE TRUE>> >>)
              ELSE TRUE)
-         /\ (IF Strict /\ c.op \notin {"uniquify", "flatten", "q"}
+         /\ (IF Strict /\ c.op \notin {"uniquify", "flatten", "q", "edif_read", "edif_rt"}
              THEN Report("DRIFT", k, StrictClauses(pre, c, r.out, post, RetOf(r))) ELSE TRUE)
 
 Init == l = 0
